@@ -89,14 +89,12 @@ def _make_handler():
         async def cancelled_inside(self, token, kind):
             """A handler whose own awaitable is cancelled by somebody else in the server."""
             self.invoked.append(("cancelled_inside", token))
-            loop = asyncio.get_running_loop()
-            if kind == 0:
-                fut = loop.create_future()
-                loop.call_later(0.05, fut.cancel)
-                return await fut
-            inner = asyncio.ensure_future(asyncio.sleep(10))
-            loop.call_later(0.01, inner.cancel)
-            return await inner
+            # what reaches the server's wrapper is the CancelledError raised at the handler's
+            # own await (an inner future or task that somebody else in the server cancelled);
+            # it is raised here directly, after a suspension, so that nothing (timer, inner
+            # task) outlives the call
+            await asyncio.sleep(0.01 if kind else 0.05)
+            raise asyncio.CancelledError()
 
         async def hidden(self, token):
             self.invoked.append(("hidden", token))
